@@ -427,8 +427,11 @@ def apply_contracts(src, ops, modname):
                 w.insert(toks[b0].start, f" -> ({c['ret']})\n{c['spec'].rstrip()}\n{{ ", f'{label}#closure{kidx}', 'W5')
                 w.insert(toks[b1].end, ' }', f'{label}#closure{kidx}', 'W5')
             for pr in op.get('proofs', []):
-                needle = pr['before'] if 'before' in pr else pr['after']
                 b_lo, b_hi = toks[body].end, toks[toks[body].match].start
+                if pr.get('at_start'):
+                    w.insert(b_lo, ' ' + pr['text'].strip() + ' ', f'{label}#proof', 'W6')
+                    continue
+                needle = pr['before'] if 'before' in pr else pr['after']
                 region = text[b_lo:b_hi]
                 occ = [m.start() for m in re.finditer(re.escape(needle), region)]
                 nth = pr.get('nth', 0)
@@ -439,6 +442,23 @@ def apply_contracts(src, ops, modname):
                     raise AnchorLost(f'{src.path}: needle `{needle}` #{nth} not in `{op["path"]}`')
                 off = b_lo + occ[nth] + (0 if 'before' in pr else len(needle))
                 w.insert(off, ' ' + pr['text'].strip() + ' ', f'{label}#proof', 'W6')
+            if op.get('w9_mut_self'):
+                # W9: `mut self` receiver (unsupported by Verus) => `self` + `let mut self_w9 = self;` and every
+                # `self` token of the body renamed.  Token-level, semantics-preserving.
+                i = fn.kw
+                ms = None
+                while i < body:
+                    if toks[i].text == 'mut' and toks[i + 1].text == 'self' and toks[i - 1].text == '(':
+                        ms = i
+                        break
+                    i += 1
+                if ms is None:
+                    raise AnchorLost(f'{src.path}: fn `{op["path"]}` has no `mut self` receiver')
+                w.rewrite(toks[ms].start, toks[ms + 1].end, 'self', f'{label}#w9')
+                w.insert(toks[body].end, ' let mut self_w9 = self; ', f'{label}#w9', 'W9')
+                for t in toks[body + 1:toks[body].match]:
+                    if t.kind == 'ident' and t.text == 'self':
+                        w.rewrite(t.start, t.end, 'self_w9', f'{label}#w9')
             for r8 in op.get('w8', []):
                 lps = src.loops(fn)
                 if r8['loop'] >= len(lps):
